@@ -758,3 +758,214 @@ fn c03_update_len_fields_27() {
     core::mem::forget(r);
     core::mem::forget(codec);
 }
+
+// ---------------------------------------------------------------------------------
+// C04: encoder — length consistency and pinned round trips
+// ---------------------------------------------------------------------------------
+
+/// fixed-size output buffer: no reallocation path exists (the encoders are generic over
+/// `B: BufMut + AsMut<[u8]>`)
+struct FixedBuf<const N: usize> {
+    buf: [u8; N],
+    len: usize,
+}
+
+impl<const N: usize> FixedBuf<N> {
+    fn new() -> Self {
+        FixedBuf { buf: [0u8; N], len: 0 }
+    }
+}
+
+impl<const N: usize> AsMut<[u8]> for FixedBuf<N> {
+    fn as_mut(&mut self) -> &mut [u8] {
+        &mut self.buf[..self.len]
+    }
+}
+
+unsafe impl<const N: usize> BufMut for FixedBuf<N> {
+    fn remaining_mut(&self) -> usize {
+        N - self.len
+    }
+    unsafe fn advance_mut(&mut self, cnt: usize) {
+        assert!(self.len + cnt <= N);
+        self.len += cnt;
+    }
+    fn chunk_mut(&mut self) -> &mut bytes::buf::UninitSlice {
+        let l = self.len;
+        bytes::buf::UninitSlice::new(&mut self.buf[l..])
+    }
+    // direct implementations keep the symbolic execution small
+    fn put_u8(&mut self, v: u8) {
+        assert!(self.len < N);
+        self.buf[self.len] = v;
+        self.len += 1;
+    }
+    fn put_slice(&mut self, src: &[u8]) {
+        assert!(self.len + src.len() <= N);
+        let mut i = 0;
+        while i < src.len() {
+            self.buf[self.len + i] = src[i];
+            i += 1;
+        }
+        self.len += src.len();
+    }
+}
+
+fn open_caps_case(n1: usize, n2: usize) {
+    let caps = fixed_vec(
+        [
+            Capability::MultiProtocol(Family::IPV4),
+            Capability::Unknown {
+                code: 200,
+                bin: fixed_vec([0x11u8; 126], n1),
+            },
+            Capability::Unknown {
+                code: 201,
+                bin: fixed_vec([0x22u8; 126], n2),
+            },
+        ],
+        3,
+    );
+    let msg = Message::Open(Open {
+        as_number: kani::any(),
+        holdtime: HoldTime::DISABLED,
+        router_id: kani::any(),
+        capability: caps,
+    });
+    let mut codec = PeerCodec::new();
+    let mut out = FixedBuf::<320>::new();
+    let r = codec.encode_to(&msg, &mut out);
+    let cap_bytes = 6 + (2 + n1) + (2 + n2);
+    match r {
+        Ok(frames) => {
+            assert!(frames == 1);
+            let total = out.len;
+            assert!(u16::from_be_bytes([out.buf[16], out.buf[17]]) as usize == total);
+            assert!(out.buf[18] == 1);
+            // optional parameters length, parameter type 2, parameter length
+            assert!(out.buf[28] as usize == total - 29);
+            assert!(out.buf[29] == 2);
+            assert!(out.buf[30] as usize == total - 31);
+            assert!(total - 31 == cap_bytes);
+        }
+        Err(_) => {
+            // only a capability block that cannot be expressed in one-byte lengths may be refused
+            assert!(cap_bytes + 2 > 255);
+        }
+    }
+    core::mem::forget(msg);
+    core::mem::forget(codec);
+}
+
+//@ id=C04 tier=off cap=3600 mem=40
+//@ fn: bgp::PeerCodec::encode_to, PeerCodec::do_encode (OPEN arm), bgp::Capability::encode (Unknown / MultiProtocol arms)
+//@ bound: OPEN with capabilities [MultiProtocol(v4), Unknown{n1 bytes}, Unknown{n2 bytes}] at the sizes (126,117) = 253 capability bytes (largest block that fits the one-byte optional-parameter length) and (126,126) = 262 bytes (does not fit); AS / router id symbolic; sizes are concrete per call because a symbolic output position makes every buffer write a symbolic-index store; unwind 130
+//@ desc: either an error is returned, or every length field equals the bytes it covers (header length, optional-parameter length, capability-parameter length); never an arithmetic overflow
+#[kani::proof]
+#[kani::unwind(130)]
+#[kani::stub(alloc::fmt::format, stub_format_bgp)]
+fn c04_open_capability_lengths() {
+    if kani::any() {
+        open_caps_case(126, 117);
+    } else {
+        open_caps_case(126, 126);
+    }
+}
+
+//@ id=C04 tier=off cap=3600 mem=40
+//@ fn: bgp::PeerCodec::encode_to, do_encode (UPDATE Reach arm, IPv4 classic), bgp::Attribute::encode, Ipv4Net::encode, bgp::PeerCodec::parse_message, bgp::validate_message
+//@ bound: pinned shape: one IPv4 /17 prefix (symbolic address; the mask is concrete because it fixes the frame length), next hop symbolic, attributes [ORIGIN(sym), AS_PATH(one SEQ of 1 symbolic AS), LOCAL_PREF(sym)]; 4-octet-AS codecs on both ends; unwind 40
+//@ desc: the frame is well-formed (header length = bytes written <= 4096, attribute length consistent) and decoding it with the peer's codec yields the same prefix, next hop and attributes
+#[kani::proof]
+#[kani::unwind(40)]
+#[kani::stub(alloc::fmt::format, stub_format_bgp)]
+#[kani::stub(Nlri::encode, nlri_encode_v4v6)]
+fn c04_roundtrip_ipv4_one_prefix() {
+    roundtrip_v4(17);
+}
+
+fn roundtrip_v4(mask: u8) {
+    let addr: u32 = kani::any();
+    // host bits beyond the mask are not carried on the wire: canonical prefix
+    let m: u32 = if mask == 0 { 0 } else { u32::MAX << (32 - mask as u32) };
+    kani::assume(addr & !m == 0);
+    let nh: u32 = kani::any();
+    let origin: u8 = kani::any();
+    kani::assume(origin <= 2);
+    let asn: u32 = kani::any();
+    let lp: u32 = kani::any();
+    let ab = asn.to_be_bytes();
+    let attrs = Arc::new(fixed_vec(
+        [
+            Attribute::new_with_value(Attribute::ORIGIN, origin as u32).unwrap(),
+            Attribute::new_with_bin(
+                Attribute::AS_PATH,
+                fixed_vec([2u8, 1, ab[0], ab[1], ab[2], ab[3]], 6),
+            )
+            .unwrap(),
+            Attribute::new_with_value(Attribute::LOCAL_PREF, lp).unwrap(),
+        ],
+        3,
+    ));
+    let keep = attrs.clone();
+    let msg = Message::Update(Update::Reach {
+        family: Family::IPV4,
+        entries: v4_entry(addr, mask),
+        nexthop: Some(Nexthop::V4(Ipv4Addr::from(nh))),
+        attr: attrs.clone(),
+    });
+    let mut tx = PeerCodec::new();
+    tx.set_family(Family::IPV4, FamilyState::default());
+    let mut out = FixedBuf::<96>::new();
+    let r = tx.encode_to(&msg, &mut out);
+    assert!(matches!(r, Ok(1)));
+    let total = out.len;
+    assert!(total >= 23 && total <= 96);
+    assert!(u16::from_be_bytes([out.buf[16], out.buf[17]]) as usize == total);
+    let wl = u16::from_be_bytes([out.buf[19], out.buf[20]]) as usize;
+    let al = u16::from_be_bytes([out.buf[21], out.buf[22]]) as usize;
+    assert!(wl == 0 && 23 + al <= total);
+    // decode at the peer
+    let mut rx = PeerCodec::new();
+    rx.set_family(Family::IPV4, FamilyState::default());
+    let parsed = rx.parse_message(&out.buf[..total]);
+    assert!(parsed.is_ok());
+    if let Ok(ParsedMessage::Update(ParsedUpdate::Routes {
+        reach,
+        mp_reach,
+        unreach,
+        mp_unreach,
+        attrs: got_attrs,
+        error_attrs,
+    })) = &parsed
+    {
+        assert!(error_attrs.is_empty() && mp_reach.is_none() && unreach.is_none() && mp_unreach.is_none());
+        let r = reach.as_ref().unwrap();
+        assert!(r.entries.len() == 1 && is_v4(&r.entries[0], addr, mask));
+        assert!(r.nexthop == Some(Nexthop::V4(Ipv4Addr::from(nh))));
+        assert!(got_attrs.len() == 3);
+        assert!(got_attrs[0].code() == Attribute::ORIGIN && got_attrs[0].value() == Some(origin as u32));
+        assert!(got_attrs[1].code() == Attribute::AS_PATH);
+        let b = got_attrs[1].binary().unwrap();
+        assert!(b.len() == 6 && b[0] == 2 && b[1] == 1 && b[2] == ab[0] && b[5] == ab[3]);
+        assert!(got_attrs[2].code() == Attribute::LOCAL_PREF && got_attrs[2].value() == Some(lp));
+    } else {
+        assert!(false);
+    }
+    kani::cover!(origin == 2 && lp == 0);
+    core::mem::forget((parsed, msg, keep, attrs, tx, rx));
+}
+
+/// stub S8-encode: the dispatcher `Nlri::encode` restricted to the IPv4/IPv6 universe; the real
+/// leaf encoders are called, every other family is outside the harness (assume(false)).  Without
+/// it CBMC explores the encoder of all 15 NLRI families for an entry read back from the heap.
+fn nlri_encode_v4v6<B: BufMut>(n: &Nlri, dst: &mut B) -> Result<u16, ()> {
+    match n {
+        Nlri::V4(net) => net.encode(dst),
+        Nlri::V6(net) => net.encode(dst),
+        _ => {
+            kani::assume(false);
+            Err(())
+        }
+    }
+}
